@@ -2,11 +2,16 @@ package main
 
 import (
 	"crypto/ecdh"
-	"crypto/rand"
 	"crypto/ed25519"
+	"crypto/rand"
+	"errors"
 	"fmt"
+	"github.com/mycoria/mycoria/config"
+	"github.com/mycoria/mycoria/mgr"
 	"net/netip"
 	"regexp"
+	"strings"
+	"sync"
 	"time"
 
 	"github.com/fxamacker/cbor/v2"
@@ -475,6 +480,22 @@ func runC13(c *Ctx) error {
 			c.Sample(map[string]any{"category": cat, "bytes": len(data), "class": cls})
 		}
 	}
+	// ---------- handshake messages with oversized fields ----------
+	// a peer with a valid identity of its own sends correctly signed handshake messages whose
+	// string / byte fields are huge (they are echoed in error replies): the setup worker must
+	// answer or abort with an error, never panic
+	if err := c13Handshakes(c); err != nil {
+		return err
+	}
+
+	// ---------- a peer that stops reading from its connection ----------
+	// the workers that hand frames to a link (switch and router workers, through Send /
+	// SendPriority) must not wait for the remote end: with the link writer stuck in the connection,
+	// further frames are dropped or refused, and the calls return
+	if err := c13StalledPeer(c); err != nil {
+		return err
+	}
+
 	// the router is still alive: a valid request from P1 gets its reply
 	body, _ := cbor.Marshal(map[string]string{"msg": "ping"})
 	d, err := craftPing(pingSpec{from: P1.id, dst: self, msgType: frame.RouterPing, pingType: "pong", body: body, seqTime: nextCraftTime(), pingID: 4242})
@@ -493,6 +514,201 @@ func runC13(c *Ctx) error {
 	c.Eval()
 	if obsClass(res) != 0 || !replied {
 		c.Violate("after the malformed inputs the router no longer answers a valid request", "stalled", map[string]any{"class": obsClass(res), "replied": replied, "errors": fmt.Sprint(res.routerErrs)})
+	}
+	return nil
+}
+
+func c13StalledPeer(c *Ctx) error {
+	for rep, n := 0, c.Pick(2, 6); rep < n; rep++ {
+		hold := make(chan struct{})
+		var once sync.Once
+		release := func() { once.Do(func() { close(hold) }) }
+		// the wire from A to B stops delivering after the handshake: B's end never reads again
+		gate := func(idx int, chunk []byte) {
+			if idx >= 3 {
+				<-hold
+			}
+		}
+		st := config.Store{Router: config.Router{Listen: []string{"tcp:47369"}}}
+		p, err := newLinkedPair(st, st, gate, nil)
+		if err != nil {
+			release()
+			return err
+		}
+		prio := rep%2 == 0
+		done := make(chan int, 1)
+		go func() {
+			sent := 0
+			for i := 0; i < 400; i++ {
+				f, err := p.A.builder.NewFrameV1(p.A.id.IP, p.B.id.IP, frame.RouterPing, nil, []byte("frame for a peer that does not read"), nil)
+				if err != nil {
+					break
+				}
+				if prio {
+					err = p.la.SendPriority(f)
+				} else {
+					err = p.la.Send(f)
+				}
+				if err != nil {
+					f.ReturnToPool()
+				}
+				sent++
+			}
+			done <- sent
+		}()
+		c.Eval()
+		c.Count("category:peer-stops-reading")
+		c.NonTrivial(fmt.Sprintf("stalled-peer/prio=%v", prio))
+		select {
+		case <-done:
+		case <-time.After(5 * time.Second):
+			c.Violate(fmt.Sprintf("a worker handing frames to a link (priority=%v) whose remote end stopped reading is still blocked after 5 s", prio), "stalled-by-peer", map[string]any{"priority": prio})
+		}
+		release()
+		p.close()
+	}
+	return nil
+}
+
+// c13Handshakes drives the real handshake state machine of a victim against an attacker end and
+// replaces one of the attacker's messages by a hand-built, correctly signed frame with an
+// oversized field.
+func c13Handshakes(c *Ctx) error {
+	fields := []string{"version", "universe", "kxtype", "err", "challenge", "kx", "hash", "keytype"}
+	sizes := []int{300, 3000, 9000, 17000, 40000, 60000}
+	for it, n := 0, c.Pick(40, 400); it < n; it++ {
+		w := newRWorld()
+		st := config.Store{Router: config.Router{Listen: []string{"tcp:47369"}}}
+		V, err := w.addNode("V", st, nil)
+		if err != nil {
+			return err
+		}
+		I, err := w.addNode("I", st, nil)
+		if err != nil {
+			return err
+		}
+		time.Sleep(3 * time.Millisecond)
+		vClient := c.Rng.IntN(2) == 0
+		sv, fv, err := V.pe.VerifNewPeeringState(vClient)
+		if err != nil {
+			return err
+		}
+		si, fi, err := I.pe.VerifNewPeeringState(!vClient)
+		if err != nil {
+			return err
+		}
+		dv, _ := fv.FrameDataWithMargins(0, 0)
+		di, _ := fi.FrameDataWithMargins(0, 0)
+		ev := &c04End{n: V, st: sv, client: vClient, first: append([]byte(nil), dv...), stage: -1}
+		ei := &c04End{n: I, st: si, client: !vClient, first: append([]byte(nil), di...), stage: -1}
+		target := c.Rng.IntN(3) // which of the attacker's three messages is replaced
+		field := fields[c.Rng.IntN(len(fields))]
+		size := sizes[c.Rng.IntN(len(sizes))]
+		filler := []string{"\x00", "A", "\xff", "\""}[c.Rng.IntN(4)]
+		big := strings.Repeat(filler, size)
+		craft := func(orig []byte) []byte {
+			body := c08Body2(orig)
+			var nb []byte
+			switch target {
+			case 0:
+				var r c04Request
+				if cbor.Unmarshal(body, &r) != nil {
+					return orig
+				}
+				switch field {
+				case "version":
+					r.RouterVersion = big
+				case "universe":
+					r.Universe = big
+				case "challenge":
+					r.Challenge = []byte(big)
+				case "hash":
+					r.Address.Hash = crop.Hash(big)
+				case "keytype":
+					r.Address.Type = crop.KeyPairType(big)
+				default:
+					r.RouterVersion = big
+				}
+				nb, _ = cbor.Marshal(&r)
+			case 1:
+				var r c04Response
+				if cbor.Unmarshal(body, &r) != nil {
+					return orig
+				}
+				switch field {
+				case "kxtype":
+					r.KeyExchangeType = big
+				case "err":
+					r.Err = big
+				case "challenge":
+					r.Challenge = []byte(big)
+				case "kx":
+					r.KeyExchange = []byte(big)
+				default:
+					r.KeyExchangeType = big
+				}
+				nb, _ = cbor.Marshal(&r)
+			default:
+				var r c04Ack
+				if cbor.Unmarshal(body, &r) != nil {
+					return orig
+				}
+				switch field {
+				case "err":
+					r.Err = big
+				case "kx":
+					r.KeyExchange = []byte(big)
+				default:
+					r.KeyExchangeType = big
+				}
+				nb, _ = cbor.Marshal(&r)
+			}
+			if len(nb) > 65000 {
+				nb = nb[:65000]
+			}
+			raw := append([]byte(nil), orig[:49]...)
+			raw[48] = 0
+			raw = append(raw, byte(len(nb)>>8), byte(len(nb)))
+			raw = append(raw, nb...)
+			raw = append(raw, make([]byte, 64)...)
+			pf, err := craftBuilder.ParseFrame(raw, nil, 0)
+			if err != nil {
+				return orig
+			}
+			f := pf.(*frame.FrameV1)
+			f.SetTTL(0)
+			f.SetSequenceTime(time.UnixMilli(frameTimeMs(orig)))
+			if f.SignRaw(I.id.PrivateKey) != nil {
+				return orig
+			}
+			f.SetTTL(1)
+			return raw
+		}
+		// relay; the attacker's message number `target` is replaced
+		toV, toI := ei.first, ev.first
+		sentByI := 0
+		for round := 0; round < 4; round++ {
+			var nv, ni []byte
+			if toV != nil {
+				d := toV
+				if sentByI == target {
+					d = craft(d)
+				}
+				sentByI++
+				ni = ev.feed(d)
+			}
+			if toI != nil {
+				nv = ei.feed(toI)
+			}
+			toV, toI = nv, ni
+		}
+		c.Eval()
+		c.Count("category:handshake-oversized-field")
+		c.NonTrivial(fmt.Sprintf("handshake/%d/%s/%d/stage%d", target, field, size, ev.stage))
+		if ev.lastErr != nil && errors.Is(ev.lastErr, mgr.ErrWorkerPanic) {
+			c.Violate(fmt.Sprintf("a correctly signed handshake message %d with a %d-byte %s field crashed the link setup worker: %v", target+1, size*len(filler), field, ev.lastErr), "panic-handshake",
+				map[string]any{"message": target + 1, "field": field, "size": size * len(filler), "victim_dials": vClient})
+		}
 	}
 	return nil
 }
